@@ -74,6 +74,9 @@ def base_shells(seed, pid, init0, variant=0):
                     "type": rng.choice(["cartesian", "spherical"]), "exps": exps})
     if twins:
         out[0]["type"], out[1]["type"] = ("cartesian", "spherical") if rng.random() < 0.5 else ("spherical", "cartesian")
+    if variant == 2:
+        for o_ in out:                       # all s: the repulsion integrals of s quartets have a kernel of their own
+            o_["l"] = 0
     if variant == 1:
         # the generalized shell (two or more columns) is pure and has angular momentum; the segmented one is Cartesian with l >= 1
         gen = max(range(len(init0)), key=lambda k_: init0[k_]["M"])
@@ -217,11 +220,11 @@ def replay_symmetry(arg):
             basis.append(cg.shell(rng, rng.choice([2, 3]), K=1, M=1, lo=0.1, hi=0.3))
         elif tight and k == 0:
             # a tight shell whose primitives are listed in ASCENDING order of the exponent, a diffuse one first
-            sh_ = cg.shell(rng, rng.choice([1, 2]), K=3, M=1, lo=0.2, hi=6.0)
+            sh_ = cg.shell(rng, 2 if n % 6 == 0 else rng.choice([1, 2]), K=3, M=1, lo=0.2, hi=6.0)
             sh_["exps"] = [cg.exponent(rng, 0.4, 0.8, 24), cg.exponent(rng, 15.0, 30.0, 24), cg.exponent(rng, 300.0, 500.0, 24)]
             basis.append(sh_)
         elif tight and k == 1:
-            sh_ = cg.shell(rng, rng.choice([1, 2]), K=2, M=1, lo=0.2, hi=6.0)
+            sh_ = cg.shell(rng, 2 if n % 6 == 0 else rng.choice([1, 2]), K=2, M=1, lo=0.2, hi=6.0)
             sh_["exps"] = [cg.exponent(rng, 0.9, 1.3, 24), cg.exponent(rng, 0.04, 0.08, 24)]
             basis.append(sh_)
         else:
@@ -427,7 +430,8 @@ def run(pid, tier, seed, only_case=None):
                 seen_kinds.add(kind_)
             cases.append((pid, seed, init0, st, eri, 0))
             if eri and pid == "C13":
-                cases.append((pid, seed, init0, st, eri, 1))     # the same state on the second set of base shells
+                cases.append((pid, seed, init0, st, eri, 1))     # the same state on the second and third set of base shells
+                cases.append((pid, seed, init0, st, eri, 2))
     out = common.pmap(replay_state, cases)
     for c, r in zip(cases, out):
         cc = {"kind": "state", "seed": seed, "init0": c[2], "state": c[3], "eri": c[4], "variant": c[5]}
